@@ -363,10 +363,18 @@ _METAS = [{}, {"name": "n"}, {"crs": {"type": "name", "properties": {"name": "ur
 
 
 def _feature_collections(nmax):
+    """(property-set index per feature, index of the extra members, same_geom): geometries rotate through _GEOMS, or - same_geom,
+    only generated when a property set repeats - are all the same Point, so that the collection contains EQUAL features"""
     for n in range(nmax + 1):
         for props in itertools.product(range(len(_PROPSETS)), repeat=n):
             for mi in range(len(_METAS)):
-                yield list(props), mi
+                yield list(props), mi, 0
+                if len(set(props)) < len(props) and mi < 2:
+                    yield list(props), mi, 1
+
+
+def _features(props, same_geom):
+    return [{"type": "Feature", "properties": dict(_PROPSETS[p]), "geometry": _GEOMS[0 if same_geom else i % len(_GEOMS)]} for i, p in enumerate(props)]
 
 
 def _json_eq(a, b):
@@ -395,11 +403,11 @@ def _cell_is(v, expected, present):
 def geojson_read_driver(run):
     n = 3 if run.tier == "thorough" else 2
     run.bound = (f"feature collections of <= {n} features over {len(_PROPSETS)} property sets (bool/int/float/str/null, heterogeneous keys, 2**53+1, "
-                 f"escapes) x 3 geometries (incl. null) x {len(_METAS)} sets of extra top-level members (nested values, a key needing escapes)")
+                 f"escapes) x 3 geometries (incl. null; also collections with EQUAL features) x {len(_METAS)} sets of extra top-level members (nested values, a key needing escapes)")
     d = tempfile.mkdtemp(prefix="vfgj")
     try:
-        for props, mi in run.inputs(_feature_collections(n)):
-            feats = [{"type": "Feature", "properties": dict(_PROPSETS[p]), "geometry": _GEOMS[i % len(_GEOMS)]} for i, p in enumerate(props)]
+        for props, mi, sg in run.inputs(_feature_collections(n)):
+            feats = _features(props, sg)
             doc = dict({"type": "FeatureCollection"}, **_METAS[mi], features=feats)
             p = os.path.join(d, "r.geojson")
             with open(p, "w", encoding="utf-8") as f:
@@ -422,7 +430,7 @@ def geojson_read_driver(run):
                 obs = {"columns": {c: list(g[c]) for c in g.colnames}, "metadata": dict(g.metadata)}
             except Exception as e:
                 ok, obs = False, f"raised {type(e).__name__}: {e}"
-            run.check([props, mi], ok, expected=doc, got=obs, clause="read: one row per feature in order, a column per property key (missing where absent), geometry unchanged, other members in metadata")
+            run.check([props, mi, sg], ok, expected=doc, got=obs, clause="read: one row per feature in order, a column per property key (missing where absent), geometry unchanged, other members in metadata")
     finally:
         shutil.rmtree(d, ignore_errors=True)
 
@@ -433,9 +441,9 @@ def geojson_write_driver(run):
     run.bound = f"the same feature collections x indent in (default, 0, 4, None): written file is valid JSON with the same features (absent == null) in order; re-reading gives the same frame and metadata"
     d = tempfile.mkdtemp(prefix="vfgj")
     try:
-        gen = ((props, mi, ind) for props, mi in _feature_collections(n) for ind in ("default", 0, 4, None))
-        for props, mi, ind in run.inputs(gen):
-            feats = [{"type": "Feature", "properties": dict(_PROPSETS[p]), "geometry": _GEOMS[i % len(_GEOMS)]} for i, p in enumerate(props)]
+        gen = ((props, mi, sg, ind) for props, mi, sg in _feature_collections(n) for ind in ("default", 0, 4, None))
+        for props, mi, sg, ind in run.inputs(gen):
+            feats = _features(props, sg)
             doc = dict({"type": "FeatureCollection"}, **_METAS[mi], features=feats)
             p, q = os.path.join(d, "in.geojson"), os.path.join(d, "out.geojson")
             with open(p, "w", encoding="utf-8") as f:
@@ -450,7 +458,7 @@ def geojson_write_driver(run):
                     valid = True
                 except Exception as e:
                     back, valid = f"invalid JSON: {e}", False
-                run.check([props, mi, ind], valid, expected="valid JSON", got=text[:300], clause="write: the file is valid JSON")
+                run.check([props, mi, sg, ind], valid, expected="valid JSON", got=text[:300], clause="write: the file is valid JSON")
                 if not valid:
                     continue
                 okf = isinstance(back.get("features"), list) and len(back["features"]) == len(feats)
@@ -464,8 +472,8 @@ def geojson_write_driver(run):
                             fv = None if fv == "" else fv
                             okf = okf and ((bv is None and fv is None) or (bv is not None and fv is not None and (bv == fv or float(bv) == float(fv))))
                 okm = _json_eq({k: v for k, v in back.items() if k != "features"}, {k: v for k, v in doc.items() if k != "features"})
-                run.check([props, mi, ind], okf, expected=feats, got=back.get("features"), clause="write: same features (absent == null) in the same order")
-                run.check([props, mi, ind], okm, expected={k: v for k, v in doc.items() if k != "features"},
+                run.check([props, mi, sg, ind], okf, expected=feats, got=back.get("features"), clause="write: same features (absent == null) in the same order")
+                run.check([props, mi, sg, ind], okm, expected={k: v for k, v in doc.items() if k != "features"},
                           got={k: v for k, v in back.items() if k != "features"}, clause="write: other top-level members kept")
                 g2 = GeoJSON.read(q)
                 same = g2.colnames == g.colnames and g2.nrow == g.nrow and _json_eq(dict(g2.metadata), dict(g.metadata))
@@ -473,10 +481,10 @@ def geojson_write_driver(run):
                     for c in g.colnames:
                         na1, na2 = list(g[c].is_na()), list(g2[c].is_na())
                         same = same and na1 == na2 and all(m or _json_eq(a, b) or a == b for a, b, m in zip(g[c].tolist(), g2[c].tolist(), na1))
-                run.check([props, mi, ind], same, expected={c: g[c].tolist() for c in g.colnames}, got={c: g2[c].tolist() for c in g2.colnames},
+                run.check([props, mi, sg, ind], same, expected={c: g[c].tolist() for c in g.colnames}, got={c: g2[c].tolist() for c in g2.colnames},
                           clause="write then read: same columns, values, missing positions and metadata")
             except Exception as e:
-                run.check([props, mi, ind], False, expected="written and re-read", got=f"raised {type(e).__name__}: {e}", clause="write answers")
+                run.check([props, mi, sg, ind], False, expected="written and re-read", got=f"raised {type(e).__name__}: {e}", clause="write answers")
     finally:
         shutil.rmtree(d, ignore_errors=True)
 
